@@ -57,4 +57,22 @@ theorem hand_value {cs : List Card} (h : IsHand 5 cs) :
     show strength [c1.rank, c2.rank, c3.rank, c4.rank, c5.rank] _ = _
     rw [strength_perm hp, strength_eq_key hf]
 
+theorem hand_quantities {cs : List Card} (h : IsHand 5 cs) :
+    orRankBits (words cs) = orMaskL (ranks cs) ∧ isFlush (words cs) = sameSuit cs := by
+  obtain ⟨c1, c2, c3, c4, c5, rfl⟩ := hand5_cases h
+  have k := h.ok
+  obtain ⟨q1, _, q3⟩ := five_quantities c1 c2 c3 c4 c5 (k c1 (by simp)) (k c2 (by simp)) (k c3 (by simp))
+    (k c4 (by simp)) (k c5 (by simp))
+  refine ⟨?_, ?_⟩
+  · show orRankBits [c1.word, c2.word, c3.word, c4.word, c5.word] = _
+    rw [q1]; simp [orMask5, orMaskL, ranks, List.foldl]
+  · show isFlush [c1.word, c2.word, c3.word, c4.word, c5.word] = _
+    rw [q3, sameSuit5]
+
+theorem ranks_lt {cs : List Card} (h : IsHand 5 cs) : ∀ r ∈ ranks cs, r < 13 := by
+  intro r hr
+  obtain ⟨c, hc, e⟩ := List.mem_map.mp hr
+  exact e ▸ (h.ok c hc).1
+
+
 end Lemmas
